@@ -312,6 +312,13 @@ def _fstring_text(e: ast.AST | None) -> str:
     return ''
 
 
+def t3_range_elements(ctx: Ctx):
+    # the machine type of a loop variable (and of what is computed from it) is chosen from the format inferred for the
+    # range; that format is decided in c14
+    from .c14 import t8_range_elements
+    t8_range_elements(ctx)
+
+
 def t2_zero_sums(ctx: Ctx):
     """`+`, `-` and `fma` are compiled to the machine's own operations under `fesetround`, and the machine follows IEEE 754
     6.3: an exact zero sum of terms of unlike signs is +0, except -0 under FE_DOWNWARD.  The interpreter computes the sum
@@ -461,12 +468,15 @@ RULES = [
     Rule('C11.G2', 'a list name is bound as a C++ reference to another variable only when neither is ever rebound', g2_reference_binding, 4, 'G'),
     Rule('C11.T2', 'the interpreter gives an exact zero sum the sign the machine gives it (-0 under round-toward-negative)', t2_zero_sums, 4, 'T'),
     Rule('C11.P2', 'range loops: the exit test follows the sign of the step; stop and step are fixed before the first trip', p2_range_loops, 11, 'P,T'),
+    Rule('C11.T3', 'the integer type of a range loop variable holds every element of the range (= C14.T8, format of a known range)', t3_range_elements, 1, 'T'),
     Rule('C11.D1', 'static array lengths: the length of a region is the meet of every contribution, unknown absorbing', d1_region_sizes, 4, 'D'),
 ]
 
 from ..selftest import Mutant  # noqa: E402
 
 MUTANTS = [
+    Mutant('range-bound-from-the-positive-end', 'fpy2/analysis/format_infer/analysis.py', "        b = RealFloat.from_int(max(abs(start), abs(last)))", "        b = RealFloat.from_int(abs(max(start, last)))", 'C11.T3',
+           'seeded change C11d: `for i in range(-300, 20): k = i * 3` stores k in an int8_t'),
     Mutant('cancellation-is-plus-zero-in-every-mode', 'fpy2/ops.py', "    if cancelled and len(set(negative)) > 1 and getattr(ctx, 'rm', None) is RM.RTN:\n        return Float(s=True, c=0)\n", "", 'C11.T2',
            'finding F67 before its repair: 1 + -1 under FE_DOWNWARD is -0.0 compiled and +0.0 interpreted'),
     Mutant('subtraction-takes-the-sign-of-y-as-written', 'fpy2/ops.py', "            r = _zero_sum(r, ctx, (_is_negative(xr), not _is_negative(yr)))", "            r = _zero_sum(r, ctx, (_is_negative(xr), _is_negative(yr)))", 'C11.T2',
